@@ -227,7 +227,8 @@ FAMILIES = ['closed', 'closed_fin', 'pc', 'capitalists', 'federated', 'multi_cur
             'multi_currency_supply', 'gold']
 
 
-def gen_program(seed, family=None, tight=True, T=None, on_grid=True, with_main=True):
+def gen_program(seed, family=None, tight=True, T=None, on_grid=True, with_main=True, names=None, cmap=None,
+                hh_variant=None):
     """Returns (ops, info). info: {'family', 'T', 'model': handle, 'economies': [handles dict]}"""
     S = core.Streams(seed)
     rng = S['topology']
@@ -236,15 +237,18 @@ def gen_program(seed, family=None, tight=True, T=None, on_grid=True, with_main=T
     T = T if T is not None else S['knobs'].randint(2, 7)
     b = B(rng)
     m = b.model()
+    names = names or {}
+    cmap = cmap or {}
     info = {'family': family, 'T': T, 'model': m, 'economies': []}
     stocks = S['params'].random() < 0.4
     if family in ('closed', 'closed_fin', 'capitalists', 'pc'):
         opts = {'fin': family == 'closed_fin', 'capitalists': family == 'capitalists' or (family == 'closed' and rng.random() < 0.2),
                 'treasury_cb': family == 'pc', 'multi_output': family in ('closed',) and rng.random() < 0.3,
-                'on_grid': on_grid}
+                'on_grid': on_grid, 'names': names, 'hh_variant': hh_variant}
         if opts['capitalists']:
             opts['multi_output'] = False
-        e = closed_country(b, prm, m, rng.choice(['CA', 'US', 'C1', 'X']), T, opts)
+        code = rng.choice(['CA', 'US', 'C1', 'X'])
+        e = closed_country(b, prm, m, cmap.get(code, code), T, opts)
         info['economies'].append(e)
         if stocks and family != 'pc':
             initial_stocks(b, prm, m, e, False)
@@ -321,7 +325,9 @@ def gen_program(seed, family=None, tight=True, T=None, on_grid=True, with_main=T
             ext = b.add({'op': 'ExternalSector', 'id': b.h('c'), 'model': m})
         for i, code in enumerate(codes):
             opts = {'fin': False, 'on_grid': on_grid, 'multi_output': family == 'multi_currency_supply',
-                    'gold': family == 'gold' and i == 0}
+                    'gold': family == 'gold' and i == 0, 'names': names, 'hh_variant': hh_variant}
+            code = cmap.get(code, code)
+            codes[i] = code
             e = closed_country(b, prm, m, code, T, opts)
             info['economies'].append(e)
             if stocks and family != 'gold':
